@@ -4232,6 +4232,9 @@ class Session(_SessionClassMethods, EventTarget):
                 merged = mapper.class_manager.new_instance()
                 merged_state = attributes.instance_state(merged)
                 merged_state.key = key
+                # the loader sets both; without the token the next flush
+                # recomputes the key as (cls, pk, None)
+                merged_state.identity_token = key[2]
                 self._update_impl(merged_state)
                 new_instance = True
 
